@@ -59,6 +59,10 @@ type fakeRegistry struct {
 	failNext map[string]int // "METHOD path-prefix" -> status to return once
 	corrupt  func(w http.ResponseWriter, r *http.Request) bool
 	hook     func(r *http.Request)
+	served     [][]string // pages served by the listing endpoints, in order
+	servedNext []bool
+	servedLast []string // the `last` value each Link header carried ("" when no link)
+	padBody    int // extra bytes of JSON padding inside listing documents
 }
 
 func newFakeRegistry(p regProfile) *fakeRegistry {
@@ -184,9 +188,15 @@ func (f *fakeRegistry) servePage(w http.ResponseWriter, r *http.Request, items [
 		end = len(items)
 	}
 	page := items[start:end]
+	if len(f.served) > 200 {
+		writeErr(w, 500, "LISTING_LOOP") // a client that never advances must not hang the harness
+		return
+	}
+	linkLast := ""
 	if end < len(items) && len(page) > 0 {
 		nq := url.Values{}
 		nq.Set("last", page[len(page)-1])
+		linkLast = page[len(page)-1]
 		if q.Get("n") != "" {
 			nq.Set("n", q.Get("n"))
 		}
@@ -207,7 +217,14 @@ func (f *fakeRegistry) servePage(w http.ResponseWriter, r *http.Request, items [
 	if page == nil {
 		page = []string{}
 	}
-	b, _ := json.Marshal(map[string]any{"name": "x", field: page})
+	f.served = append(f.served, append([]string(nil), page...))
+	f.servedNext = append(f.servedNext, w.Header().Get("Link") != "")
+	f.servedLast = append(f.servedLast, linkLast)
+	doc := map[string]any{"name": "x", field: page}
+	if f.padBody > 0 {
+		doc["pad"] = strings.Repeat("p", f.padBody)
+	}
+	b, _ := json.Marshal(doc)
 	w.Write(b)
 }
 
@@ -452,6 +469,12 @@ func (f *fakeRegistry) serveReferrers(w http.ResponseWriter, r *http.Request, na
 	if page == nil {
 		page = []ocispec.Descriptor{}
 	}
+	var names []string
+	for _, d := range page {
+		names = append(names, d.Annotations["i"])
+	}
+	f.served = append(f.served, names)
+	f.servedNext = append(f.servedNext, w.Header().Get("Link") != "")
 	idx := ocispec.Index{MediaType: ocispec.MediaTypeImageIndex, Manifests: page}
 	idx.SchemaVersion = 2
 	b, _ := json.Marshal(idx)
